@@ -11,8 +11,22 @@ import semcheck
 
 
 def oracle_cases(ctx, flags_list, relation, n_corpus, n_mut, origins=None, n_inst=4, facts_over="in", outp="auto",
-                 extra_programs=(), one_to_one=True, inp="auto"):
+                 extra_programs=(), one_to_one=True, inp="auto", decl_mix=False):
     rng = ctx.rng
+    if decl_mix:
+        # declarations vary per case: ngo's own detection, detected inputs plus some derived predicates, random outputs
+        class _Mix:
+            def __init__(self, kind):
+                self.kind = kind
+        inp, outp = _Mix("in"), _Mix("out")
+
+    def pick(x, k):
+        if hasattr(x, "kind"):
+            r = rng.random()
+            if x.kind == "in":
+                return "auto" if r < 0.6 else ("auto+", k)
+            return "auto" if r < 0.5 else ("random", k)
+        return x
     H = corpus.harvest()
     if origins:
         pref = [x for x in H if x[0] in origins]
@@ -31,7 +45,7 @@ def oracle_cases(ctx, flags_list, relation, n_corpus, n_mut, origins=None, n_ins
     for origin, text in chosen:
         for flags in flags_list:
             k += 1
-            cases.append(dict(program=text, inp=inp, outp=outp, flags=flags, relation=relation, seed=ctx.seed * 1000003 + k,
+            cases.append(dict(program=text, inp=pick(inp, k), outp=pick(outp, k), flags=flags, relation=relation, seed=ctx.seed * 1000003 + k,
                               n_inst=(24 if origin == "extra" else n_inst), facts_over=facts_over, label=f"corpus:{origin}",
                               one_to_one=one_to_one))
     pool = pref or H
@@ -42,7 +56,7 @@ def oracle_cases(ctx, flags_list, relation, n_corpus, n_mut, origins=None, n_ins
             m = gen.mutate(rng, m)
         flags = rng.choice(flags_list)
         k += 1
-        cases.append(dict(program=m, inp=inp, outp=outp, flags=flags, relation=relation, seed=ctx.seed * 1000003 + k,
+        cases.append(dict(program=m, inp=pick(inp, k), outp=pick(outp, k), flags=flags, relation=relation, seed=ctx.seed * 1000003 + k,
                           n_inst=n_inst, facts_over=facts_over, label="mutated", one_to_one=one_to_one))
     return cases
 
@@ -105,8 +119,12 @@ def replay_known(ctx):
             ctx.known_hits.setdefault(f["id"], {"what": f["what"]})
 
 
+def _decl(x):
+    return tuple(x) if isinstance(x, list) and len(x) == 2 and x[0] in ("auto+", "random") else x
+
+
 def replay(ctx, data) -> int:
-    case = dict(program=data["program"], inp=data.get("inp", "auto"), outp=data.get("outp", "auto"), flags=data["flags"],
+    case = dict(program=data["program"], inp=_decl(data.get("inp", "auto")), outp=_decl(data.get("outp", "auto")), flags=data["flags"],
                 relation=data.get("relation", "voc"), seed=0, instances=[data.get("instance", "")], label="replay")
     r = semcheck.evaluate_case(case)
     print(json.dumps({k: r.get(k) for k in ("status", "why", "instance", "result", "source_models", "result_models")}, indent=1))
